@@ -100,7 +100,7 @@ class Work:
                 if p.endswith(".go") and not p.endswith("_test.go"):
                     paths.append(p)
         if paths:
-            subprocess.check_call([tool] + paths, env=env_base())
+            subprocess.check_call([tool] + paths, env=env_base(), stdout=subprocess.DEVNULL)
 
     def build_test(self, pkg, race=False):
         key = (pkg, race)
